@@ -1,8 +1,8 @@
 (* Thm/C11.v — property C11: A-FSSH moments stay Hermitian and are re-centred correctly.
    Model: Model/Afssh.v (one nuclear dimension at a time; eigh(W) is an oracle whose answer
    enters as data — Hermiticity needs NO property of it); proofs: Proof/AfsshP.v. *)
-From Coq Require Import Reals List Lra.
-From MV Require Import Ops RInst Vec Cplx Mat CRing MatP Propagate PropagateP Rk4P Afssh AfsshP CollapseP Traj TrajP TrajAP.
+From Coq Require Import Reals List Lra Lia.
+From MV Require Import Ops RInst Vec Cplx Mat CRing MatP Propagate PropagateP Rk4P Afssh AfsshP CollapseP Traj TrajP TrajAP WmidP.
 Import ListNotations.
 Open Scope R_scope.
 
@@ -123,3 +123,26 @@ Proof.
   exact (step_af_rk4_hermitian n m dt poisson zeta eprev e0 e1 fm1 lam Cm etas s s' att coll H1 H2 H3 H4 H5 H6 H7 H8 H9 H10 H11).
 Qed.
 Print Assumptions C11_full_step_rk4_hermitian.
+
+(* ... the same under primitive hypotheses - symmetric Hamiltonians and coupling tensors antisymmetric in the state indices at
+   the three positions a pass touches, which is what every electronics object provides (C05) - and lifted to ANY number of
+   passes with rk4 moments (Model/Traj.run_af_rk4) *)
+Theorem C11_full_run_rk4_hermitian : forall n m dt poisson (ds : list (adata (T:=R))) (s sf : astate (T:=R)) evs,
+  run_af_rk4 ROps n m dt poisson ds s = (sf, evs) ->
+  Forall (af_rk_ok n) ds -> (pact (ab s) < n)%nat ->
+  Forall (fun ev => forall t, fst ev = Some (t, true) -> (t < n)%nat) evs ->
+  Forall (mherm n) (adelR s) -> Forall (mherm n) (adelP s) -> mherm n (prho (ab s)) ->
+  Forall (mherm n) (adelR sf) /\ Forall (mherm n) (adelP sf) /\ mherm n (prho (ab sf)) /\ (pact (ab sf) < n)%nat.
+Proof.
+  intros n m dt poisson ds s sf evs H1 H2 H3 H4 H5 H6 H7.
+  exact (run_af_rk4_hermitian n m dt poisson ds s sf evs H1 H2 H3 H4 H5 H6 H7).
+Qed.
+Print Assumptions C11_full_run_rk4_hermitian.
+
+(* non-vacuity of the per-pass hypotheses: a symmetric 2x2 Hamiltonian and an antisymmetric two-component coupling tensor *)
+Example C11_rk4_witness : hsym 2 [[1; 2]; [2; 3]] /\ tanti 2 [[[0; 0]; [1; -2]]; [[-1; 2]; [0; 0]]].
+Proof.
+  split.
+  - intros i j Hi Hj. destruct i as [|[|i]]; destruct j as [|[|j]]; try lia; reflexivity.
+  - intros i j Hi Hj. destruct i as [|[|i]]; destruct j as [|[|j]]; try lia; cbn; repeat f_equal; lra.
+Qed.
